@@ -28,7 +28,7 @@ func init() {
 		MinNonTrivial:     150,
 		MinEffectiveShare: 0.6,
 		RequiredEvents: map[string]int64{"formats_parsed": 2000, "tuples_compared": 30000, "exposure_tuples_compared": 3000, "diff_tuples_compared": 3000, "ingress_controller_tuples": 50,
-			"tuples_with_named_ports": 50, "diff_entries_with_annotation": 100, "multi_range_connections": 200},
+			"tuples_with_named_ports": 30, "diff_entries_with_annotation": 100, "multi_range_connections": 200},
 	})
 }
 
